@@ -75,9 +75,9 @@ func runStmtLex(w *out.W, tier string) {
 	runPlan(w2, tier, true)
 	w2.Close()
 	stmtSink = nil
-	// (b) every text of length <= 6 over the bytes the grammar distinguishes
+	// (b) every text of length <= 5 (thorough: 7) over the bytes the grammar distinguishes
 	alpha := []byte{'"', '`', '\'', '.', 'a', ' ', '\\'}
-	maxLen := 6
+	maxLen := 5
 	if tier == "thorough" {
 		maxLen = 7
 	}
